@@ -157,7 +157,7 @@ func replaySched(c *vfw.Ctx, t *testing.T) bool {
 	}
 	for _, sc := range schedScenarios() {
 		if sc.Name == r.Scenario {
-			res := e3.RunOnce(t, sc, r.Choices, nil)
+			res := e3.RunOnce(t, sc, r.Choices, nil, r.Demote)
 			c.Case(true)
 			for _, v := range res.Viols {
 				c.Violate(sc.Name+":"+v.Key, v.Desc, r)
